@@ -707,7 +707,7 @@ CHECKS["C03"] = {
     "sub": "c03",
     "level": "exploration",
     "technique": "runtime monitoring: encoder output checked by an independent RFC 8949 well-formedness parser and reference encoder",
-    "rule": "every Encoder method is run over its argument space (u8/i8/u16/i16/simple/char exhaustively, u32/i32 exhaustively in the thorough tier, 64-bit arguments boundary-dense + random), every built-in Encode impl over generated values (encoded twice), and random balanced call sequences built from generated item trees choosing among equivalent methods; a case is non-trivial when the output reached the reference comparison; distinct = hash of the output bytes per (type | sequence), enumerated argument sweeps are distinct by construction",
+    "rule": "every Encoder method is run over its argument space (u8/i8/u16/i16/simple/char exhaustively, u32/i32 exhaustively in the thorough tier, 64-bit arguments boundary-dense + random), every built-in Encode impl over generated values (encoded twice), random balanced call sequences built from generated item trees choosing among equivalent methods, the iterator adapters ArrayIter/MapIter with exact and inexact size hints (the same object encoded twice, also after a write fault part-way), and Encoder::tag given each registered IanaTag name against an independent RFC 8949 / RFC 8746 table; a case is non-trivial when the output reached the reference comparison; distinct = hash of the output bytes per (type | sequence), enumerated argument sweeps are distinct by construction",
     "level_text": "Each encoder call's bytes are parsed by an independent strict RFC 8949 parser (exactly one well-formed item, shortest heads, definite lengths) and compared byte-for-byte with a reference encoder for all canonical mappings; small argument spaces are enumerated, large ones sampled boundary-dense, and call sequences explore method equivalences. Exploration with an exact oracle is the right level for an encoder whose only state is the byte sink.",
     "level_note": "Trusted: harness/vcore/src/refcbor.rs (checked against RFC 8949 Appendix A vectors). std types whose shape is a crate convention (Duration, net types, ranges, Bound, Result) are only checked for well-formedness, preferred heads, definiteness and determinism. Known finding: Encoder::simple(24..=31).",
     "assumptions": COMMON_ASSUMPTIONS + ["Tag alone writes a head, not a complete item, and is compared against the reference head"],
@@ -717,7 +717,7 @@ CHECKS["C05"] = {
     "sub": "c05",
     "level": "exploration",
     "technique": "runtime monitoring: integer accessors vs i128 arithmetic oracle over enumerated (sign, width, argument) triples",
-    "rule": "all (sign, head width, argument) triples with argument < 2^16 at every admissible width, every 2^k+-3 boundary at every width, random 64-bit arguments (and in the thorough tier all 2^32 arguments at the 4- and 8-byte widths) x {u8..i64, int, char, usize/isize, 10 NonZero types, Wrapping, Option, datatype}, plus Int conversions on i128 boundaries; distinct = enumerated triples + distinct hashed random triples",
+    "rule": "all (sign, head width, argument) triples with argument < 2^16 at every admissible width, every 2^k+-3 boundary at every width, random 64-bit arguments (and in the thorough tier all 2^32 arguments at the 4- and 8-byte widths) x {u8..i64, int, char, usize/isize, 10 NonZero types, Wrapping, Option, datatype}, plus Int conversions on i128 boundaries; every head is decoded at offset 0 of an exact buffer and again in the middle of a buffer (filler bytes before, trailing bytes after, decoder positioned at the item), same value and same number of bytes consumed required; distinct = enumerated triples + distinct hashed random triples",
     "level_text": "The oracle is exact (i128 arithmetic and Rust's own TryFrom range tests), the space below 2^16 and all width boundaries are enumerated completely, and the thorough tier sweeps 2^32 arguments at the two wide head widths, so every comparison/cast in the accessors is exercised on both sides of every boundary.",
     "level_note": "Trusted: refcbor::head for building inputs. usize/isize are 64-bit on this host; 32-bit targets are not executed.",
     "assumptions": COMMON_ASSUMPTIONS,
@@ -737,7 +737,7 @@ CHECKS["C04"] = {
     "sub": "c04",
     "level": "exploration",
     "technique": "runtime monitoring: accessors and typed decodes vs an executable model of each target over reference items; strict-prefix replay",
-    "rule": "items: all trees with <= 3 (quick) / 4 (thorough) nodes over a leaf alphabet with every head width, plus random trees (depth <= 8, non-preferred heads, indefinite containers) and shape-directed items; each item is decoded through ~80 accessors / target types on `encoding ++ suffix` (value, final position, provenance of borrowed slices compared with the model; non-matching targets must fail), and every target that accepted the item is re-run on every strict prefix (must fail with the end-of-input class); distinct = enumerated trees + distinct hashed random encodings",
+    "rule": "items: all trees with <= 3 (quick) / 4 (thorough) nodes over a leaf alphabet with every head width, plus random trees (depth <= 8, non-preferred heads, indefinite containers) and shape-directed items; each item is decoded through ~85 accessors / target types (incl. &CStr / CString with byte strings shaped like C strings: terminator present, missing, doubled, interior NULs) on `encoding ++ suffix` (value, final position, provenance of borrowed slices compared with the model; non-matching targets must fail), and every target that accepted the item is re-run on every strict prefix (must fail with the end-of-input class); distinct = enumerated trees + distinct hashed random encodings",
     "level_text": "The model of every accessor/type over RFC 8949 items is an executable oracle; the small-tree space is enumerated completely with all head-width assignments, which is where shape/width confusions live, and every accepted encoding is cut at every offset. Exploration is the right level: the input space is unbounded and the oracle is exact.",
     "level_note": "Trusted: harness/vmain/src/c04.rs::model (written from the crate documentation) and refcbor. Where the statement is silent (simple() on f4..f7, tuples/unit from indefinite arrays) both an error and the model value are accepted, never another value. 'Well-formed' is read as well-formed and valid UTF-8.",
     "assumptions": COMMON_ASSUMPTIONS,
@@ -758,7 +758,7 @@ CHECKS["C11"] = {
     "sub": "c11",
     "level": "exploration",
     "technique": "runtime monitoring: tokenizer output vs reference token stream; re-encoding vs reference preferred form; tokenizer termination under the step monitor",
-    "rule": "forward: item sequences (all small trees x head widths, all half patterns except signalling NaNs, all well-formed simple values, random sequences of 1-3 trees in preferred and non-preferred form) are tokenised, every token compared with the reference token, and re-encoded (must equal the preferred form); converse: random sequences of 1-64 tokens are encoded and tokenised back (value-equal); arbitrary bytes (all strings <= 2/3 bytes, head sweep, mutants): at most one token per byte and None forever after; distinct = enumerated + hashed",
+    "rule": "forward: item sequences (tokenised with Tokenizer::new, Decoder::tokens and Tokenizer::from(decoder) at the start and at a later item boundary; all small trees x head widths, all half patterns except signalling NaNs, all well-formed simple values, random sequences of 1-3 trees in preferred and non-preferred form) are tokenised, every token compared with the reference token, and re-encoded (must equal the preferred form); converse: random sequences of 1-64 tokens are encoded and tokenised back (value-equal); arbitrary bytes (all strings <= 2/3 bytes, head sweep, mutants): at most one token per byte and None forever after; distinct = enumerated + hashed",
     "level_text": "Both directions of the identity are decided on real executions against the independent reference token stream and encoder; the finite sub-domains the statement names are enumerated completely.",
     "level_note": "Trusted: refcbor::tokens / preferred. Signalling half NaNs are excluded as the property states.",
     "assumptions": COMMON_ASSUMPTIONS,
@@ -783,7 +783,7 @@ CHECKS["C13"] = {
     "engine": "vmain+vgen",
     "level": "exploration",
     "technique": "runtime monitoring with sanitizers: canary-guarded sinks vs a (capacity, accepted) model; Miri and ASan on the slice writers",
-    "rule": "values of every built-in type from the boundary-dense generators x every capacity 0..=len+1 (sampled for encodings > 200 bytes) x {&mut [u8], Cursor<&mut [u8]>, Cursor<Box<[u8]>>, Writer<io::Cursor<&mut [u8]>>, Cursor<[u8; N]> for 10 N, &mut Vec, Writer<Vec>}; plus all sequences of three raw write_all calls with lengths 0..=cap+1 for capacities 0..=12 on every cursor kind; plus values of every derived type of the generated schema crates (see C08) x every capacity into canary-guarded slices; distinct = distinct hashed (type, encoding) x capacities + enumerated raw sequences",
+    "rule": "values of every built-in type from the boundary-dense generators x every capacity 0..=len+1 (sampled for encodings > 200 bytes) plus ArrayIter/MapIter adapters with exact and inexact size hints x {&mut [u8], Cursor<&mut [u8]>, Cursor<Box<[u8]>>, Writer<io::Cursor<&mut [u8]>>, Cursor<[u8; N]> for 10 N, &mut Vec, Writer<Vec>}; plus all sequences of three raw write_all calls with lengths 0..=cap+1 for capacities 0..=12 on every cursor kind; plus values of every derived type of the generated schema crates (see C08) x every capacity into canary-guarded slices; distinct = distinct hashed (type, encoding) x capacities + enumerated raw sequences",
     "level_text": "Every sink sits inside a larger buffer filled with a canary pattern, so an overrun is observed directly; success/failure is compared with the exact rule (fits iff encoding length <= capacity), the bytes left behind with the Vec encoding, the cursor position with the bytes accepted. Raw write sequences are enumerated exhaustively for small capacities. The slice writers additionally run under Miri (both tiers) and ASan (thorough).",
     "level_note": "Trusted: the Vec<u8> encoding as reference (its correctness is C03's subject). Values of derived types (the C08 generators) run the slice-sink experiment at every capacity in the generated schema crates.",
     "assumptions": COMMON_ASSUMPTIONS,
@@ -807,7 +807,7 @@ CHECKS["C14"] = {
     "sub": "c14",
     "level": "fault_enumeration",
     "technique": "runtime monitoring under enumerated faults: scripted io::Read/Write (fragmentation, Interrupted, truncation) vs a framing reference model, with allocation monitor",
-    "rule": "streams: 225 streams of <= 20 bytes (frames with decodable, undecodable and zero-length payloads, hostile prefixes) x every truncation point x compositions of the stream length into read sizes (all 2^(L-1), strided above the per-stream cap) x max_len in {64,3,2}; Interrupted inserted 0/1/2 times before each read (exhaustive for <= 10 reads); random long streams (<= 24 frames, payloads to 6 KiB) with random scripts; writer sequences (incl. values that fail to encode or exceed max_len) into a scripted short-write/Interrupted sink, read back. distinct = enumerated (stream, script, max_len) triples + hashed random streams",
+    "rule": "streams: 225 streams of <= 20 bytes (frames with decodable, undecodable and zero-length payloads, hostile prefixes) x every truncation point x compositions of the stream length into read sizes (all 2^(L-1), strided above the per-stream cap) x max_len in {64,3,2}; Interrupted inserted 0/1/2 times before each read (exhaustive for <= 10 reads); random long streams (<= 24 frames, payloads to 6 KiB and now and then up to ~90 KiB, delivered in pieces of 1-13 bytes or around 512 / 4096 / 8192 / 16384 bytes) with random scripts; half of the readers / writers are constructed with a caller-supplied buffer holding stale bytes; writer sequences (incl. values that fail to encode or exceed max_len) into a scripted short-write/Interrupted sink, read back. distinct = enumerated (stream, script, max_len) triples + hashed random streams",
     "level_text": "Faults (short reads, interrupted calls, truncation at every byte, oversized prefixes) are enumerated rather than sampled for all small streams, and the expected result sequence comes from an independent framing model over the stream bytes alone; the reader's buffer length, largest read request and peak allocation are measured against max_len.",
     "level_note": "Trusted: c14::refframe and refcbor for decoding payloads as Vec<u16>. 4 GiB frames (the writer's `as u32`) are out of reach. After InvalidLen the stream is desynchronised by design; the model stops there.",
     "assumptions": COMMON_ASSUMPTIONS,
@@ -817,7 +817,7 @@ CHECKS["C15"] = {
     "sub": "c15",
     "level": "exploration",
     "technique": "runtime monitoring over systematically enumerated schedules: scripted AsyncRead + hand-written executor, online prefix monitor vs framing model, state-invariant hook",
-    "rule": "schedules = sequences of source outcomes {deliver 1/2/all requested, Pending, transient error, end of stream} and caller decisions {poll again, drop the future and call read again}; exhaustive for every prefix of the single-frame streams; for every prefix of all 2- and 3-frame streams (<= 14 bytes) all schedules with <= 5 (quick) / 7 (thorough) deviations from two base policies (deliver everything / one byte at a time); seeded random walks over streams of up to 64 frames with 4 KiB payloads; each enumerated schedule is distinct by construction, random walks by hash of the choice vector",
+    "rule": "schedules = sequences of source outcomes {deliver 1/2/all requested, Pending, transient error, end of stream} and caller decisions {poll again, drop the future and call read again}; exhaustive for every prefix of the single-frame streams; for every prefix of all 2- and 3-frame streams (<= 14 bytes) all schedules with <= 5 (quick) / 7 (thorough) deviations from two base policies (deliver everything / one byte at a time); seeded random walks over streams of up to 64 frames with payloads to 6 KiB and now and then ~40 KiB; every reader is constructed over a caller-supplied buffer with stale bytes (length varying, 0 included); each enumerated schedule is distinct by construction, random walks by hash of the choice vector",
     "level_text": "Cancellation safety is a property of schedules, so the schedule space is enumerated by re-execution under a deterministic executor: every poll outcome of the source and every drop/re-issue decision of the caller is a choice point. The monitor checks online that returned values are exactly the written prefix and, through the add-only state hook, that bytes consumed from the source equal completed frames plus the reader's recorded offset at every quiescent point. Liveness is restated as bounded progress (a poll budget linear in the stream).",
     "level_note": "Trusted: the scripted source and executor in harness/vmain/src/aio.rs; deviation bounding (as in delay-bounded scheduling) covers all placements of up to K non-default outcomes, not all schedules. If the hook is absent the state invariants are skipped and the evidence says io_hook=false.",
     "assumptions": COMMON_ASSUMPTIONS,
@@ -827,7 +827,7 @@ CHECKS["C16"] = {
     "sub": "c16",
     "level": "exploration",
     "technique": "runtime monitoring over systematically enumerated schedules: scripted AsyncWrite + hand-written executor, online prefix monitor on the sink bytes, state-invariant hook",
-    "rule": "schedules = sink outcomes {accept 1/2/all, Pending, transient error, accept 0} and caller decisions {poll again, drop the write future then sync (itself droppable and re-issued)}; exhaustive for single-value writes, all schedules with <= 5 (quick) / 7 (thorough) deviations from two base policies for all value sequences of length 2 and 3 (values include one that fails to encode and ones above max_len; max_len in {64, 2}); seeded random walks over up to 48 values; distinct by construction / by hash of the choice vector",
+    "rule": "schedules = sink outcomes {accept 1/2/all, Pending, transient error, accept 0} and caller decisions {poll again, drop the write future then sync (itself droppable and re-issued)}; exhaustive for single-value writes, all schedules with <= 5 (quick) / 7 (thorough) deviations from two base policies for all value sequences of length 2 and 3 (values include one that fails to encode and ones above max_len; max_len in {64, 2}); seeded random walks over up to 48 values; every writer is constructed over a caller-supplied buffer with stale bytes; distinct by construction / by hash of the choice vector",
     "level_text": "The caller follows exactly the documented contract (cancel + sync before the next write); every sink outcome and caller decision is a choice point enumerated by re-execution. The monitor checks after every step that the sink is a prefix of the concatenated frames and equal at quiescence, that write returns the payload length, that idle sync does not touch the sink, that accept-0 yields WriteZero exactly when injected, and through the hook that sink length = completed frames + recorded offset.",
     "level_note": "Trusted: aio.rs (scripted sink, executor). Deviation bounding covers all placements of up to K non-default outcomes.",
     "assumptions": COMMON_ASSUMPTIONS,
@@ -837,7 +837,7 @@ CHECKS["C17"] = {
     "sub": "c17",
     "level": "exploration",
     "technique": "runtime monitoring: bridge output vs an independent reference serde Serializer + reference encoder; round-trip, re-framing and unknown-field replay",
-    "rule": "values of ~50 serde types spanning every Serializer/Deserializer method and every enum representation (external, internal, adjacent, untagged, flatten), from boundary-dense generators; each value is serialised by the bridge and by RefSerializer (bytes must be equal), deserialised back (reference item of the result must be equal, decoder at the end), re-framed with wider heads (same value required) and indefinite containers (same value or error), and with unknown extra fields (arbitrary items) inserted into every struct map (same value required); distinct = hash of (type, bytes)",
+    "rule": "values of ~50 serde types spanning every Serializer/Deserializer method and every enum representation (external, internal, adjacent, untagged, flatten), from boundary-dense generators; each value is serialised by the bridge and by RefSerializer (bytes must be equal), deserialised back (reference item of the result must be equal, decoder at the end), re-framed with wider heads (same value required) and indefinite containers (same value or error), and with unknown extra fields (arbitrary items) inserted into every struct map (same value required); borrowed &str / &[u8] reaching the visitor through deserialize_any (untagged, internally and adjacently tagged, flatten) must point into the input; strings written through collect_str (lengths on the head edges and 63/64/65, 1000) must be definite text and round-trip; distinct = hash of (type, bytes)",
     "level_text": "The documented representation is made executable as an independent serde Serializer that builds reference items; byte equality with the reference encoder decides representation and well-formedness at once, and comparison of reference items decides round-trip equality bit-exactly (floats included). Exploration over generated values of a type family that reaches every bridge method is the right level.",
     "level_note": "Trusted: harness/vmain/src/refser.rs (written from the bridge documentation), refcbor. Seven shapes that cannot round-trip through serde's content buffering are listed as open known findings (one signature per shape).",
     "assumptions": COMMON_ASSUMPTIONS + ["std types with deny-unknown-fields Deserialize impls (Duration, Range) get no unknown fields inserted"],
@@ -888,7 +888,7 @@ CHECKS["C10"] = {
     "engine": "vgen",
     "level": "exploration",
     "technique": "runtime monitoring of generated program pairs: reader result vs a compatibility projection over two schema descriptions",
-    "rule": "version chains: from a random base struct (with an enum used only as an optional field) apply 1-4 documented-compatible edits (rename everything; add an optional field at a new highest index or at a never-used gap index, plain, tagged or with the nil-aware codec; drop an optional field; add a variant, regular or index_only; turn a unit variant into a tuple/struct variant with only optional fields; flip n/b); every ordered pair of versions is checked with all writer values (presence masks + random): the reader must obtain the projection computed from the two schema descriptions, consume everything, also when the evolved type is nested in a struct, a map-encoded struct, an enum variant or a tuple with a sibling after it; control: a reader with an added mandatory field must report missing-value; distinct = hash of (pair, bytes)",
+    "rule": "version chains: from a random base struct (with an enum used only as an optional field) apply 1-4 documented-compatible edits (rename everything; add an optional field at a new highest index or at a never-used gap index, plain, tagged or with the nil-aware codec; drop an optional field; add a variant, regular or index_only; turn a unit variant into a tuple/struct variant with only optional fields; flip n/b); every ordered pair of versions is checked with all writer values (presence masks + random): the reader must obtain the projection computed from the two schema descriptions, consume everything, also after fields unknown to every version (arbitrary items: nested indefinite containers, indefinite strings, half floats, tags) were injected into the top-level and every nested field container, and also when the evolved type is nested in a struct, a map-encoded struct, an enum variant or a tuple with a sibling after it; control: a reader with an added mandatory field must report missing-value; distinct = hash of (pair, bytes)",
     "level_text": "Compatibility is a property of pairs of programs; the generator derives version chains by the documented edits, compiles every version with the real macros and compares what the reader obtains with a projection computed only from the two schema descriptions. Nesting with a trailing sibling makes mis-consumed input observable.",
     "level_note": "Trusted: refschema::project. Indices are never reused with another meaning along a chain (that would not be a compatible change).",
     "assumptions": COMMON_ASSUMPTIONS,
